@@ -7,6 +7,7 @@ use smoltcp::time::Instant;
 use smoltcp::wire::{EthernetAddress, HardwareAddress, IpCidr};
 use std::collections::VecDeque;
 
+pub mod lowpan;
 pub mod tcp_peer;
 pub mod tcpsim;
 
